@@ -28,6 +28,8 @@ const RP: &str = "example.com";
 pub struct YieldStore {
     inner: MemoryStore,
     yields: usize,
+    /// capability reported by get_info: 0 what MemoryStore says (forced discoverable), 1 full, 2 non-discoverable only
+    disc: u8,
 }
 
 #[async_trait::async_trait]
@@ -46,7 +48,11 @@ impl CredentialStore for YieldStore {
         self.inner.update_credential(cred).await
     }
     async fn get_info(&self) -> StoreInfo {
-        self.inner.get_info().await
+        match self.disc % 3 {
+            1 => StoreInfo { discoverability: passkey_authenticator::DiscoverabilitySupport::Full },
+            2 => StoreInfo { discoverability: passkey_authenticator::DiscoverabilitySupport::OnlyNonDiscoverable },
+            _ => self.inner.get_info().await,
+        }
     }
 }
 
@@ -123,6 +129,9 @@ pub struct Config {
     pub cers: Vec<Cer>,
     /// start counter of the held credentials
     pub counter: u32,
+    /// store capability (see YieldStore::disc); registrations ask for rk=false
+    #[serde(default)]
+    pub disc: u8,
 }
 
 #[derive(Clone, Debug, PartialEq)]
@@ -205,7 +214,7 @@ fn initial_store(cfg: &Config) -> YieldStore {
         let pk = make_passkey(60 + k as u64, RP, &held_id(k), Some(b"c19-user-held"), Some(cfg.counter), None);
         m.insert(pk.credential_id.to_vec(), pk);
     }
-    YieldStore { inner: m, yields: cfg.store_yields }
+    YieldStore { inner: m, yields: cfg.store_yields, disc: cfg.disc }
 }
 
 /// run one schedule: at step i poll the `prefix[i]`-th runnable task (0 beyond the prefix)
@@ -420,7 +429,7 @@ fn check_generated(ctx: &mut Ctx, case: &(Config, Vec<u8>)) -> Result<(), String
 
 fn config(max_tasks: usize) -> impl Strategy<Value = Config> {
     let cer = prop_oneof![3 => (0u8..2, proptest::bool::weighted(0.8)).prop_map(|(cred, allow)| Cer::Assert { cred, allow }), 2 => (0u8..2).prop_map(|user| Cer::Register { user })];
-    (prop_oneof![Just(Lock::ArcMutex), Just(Lock::ArcRwLock)], 0usize..3, proptest::collection::vec(0usize..4, 3), proptest::collection::vec(cer, 2..=max_tasks), prop_oneof![Just(5u32), Just(0), Just(1_000_000)]).prop_map(|(lock, store_yields, uv_yields, cers, counter)| Config { lock, store_yields, uv_yields, cers, counter })
+    (prop_oneof![Just(Lock::ArcMutex), Just(Lock::ArcRwLock)], 0usize..3, proptest::collection::vec(0usize..4, 3), proptest::collection::vec(cer, 2..=max_tasks), prop_oneof![Just(5u32), Just(0), Just(1_000_000)]).prop_map(|(lock, store_yields, uv_yields, cers, counter)| Config { lock, store_yields, disc: (uv_yields.iter().sum::<usize>() % 3) as u8, uv_yields, cers, counter })
 }
 
 pub fn run(ctx: &mut Ctx) {
@@ -448,7 +457,12 @@ pub fn run(ctx: &mut Ctx) {
             for sy in 0..=2usize {
                 for uy0 in 0..=max_uy {
                     for uy1 in 0..=max_uy {
-                        exhaustive_cfgs.push(Config { lock, store_yields: sy, uv_yields: vec![uy0, uy1, 0], cers: cers.clone(), counter: 5 });
+                        exhaustive_cfgs.push(Config { lock, store_yields: sy, uv_yields: vec![uy0, uy1, 0], cers: cers.clone(), counter: 5, disc: 0 });
+                        if uy0 + uy1 <= 1 && cers.iter().any(|c| matches!(c, Cer::Register { .. })) {
+                            for disc in [1u8, 2] {
+                                exhaustive_cfgs.push(Config { lock, store_yields: sy, uv_yields: vec![uy0, uy1, 0], cers: cers.clone(), counter: if disc == 1 { 0 } else { 5 }, disc });
+                            }
+                        }
                     }
                 }
             }
@@ -461,11 +475,11 @@ pub fn run(ctx: &mut Ctx) {
             vec![Cer::Register { user: 0 }, Cer::Register { user: 1 }, Cer::Register { user: 0 }],
         ] {
             for (sy, uvs) in [(0usize, vec![1usize, 0, 0]), (0, vec![1, 1, 1]), (1, vec![0, 0, 0])] {
-                exhaustive_cfgs.push(Config { lock, store_yields: sy, uv_yields: uvs, cers: cers.clone(), counter: 5 });
+                exhaustive_cfgs.push(Config { lock, store_yields: sy, uv_yields: uvs, cers: cers.clone(), counter: 5, disc: 0 });
             }
             if ctx.tier == crate::core::Tier::Thorough {
                 for (sy, uvs) in [(1usize, vec![1usize, 1, 0]), (1, vec![1, 1, 1]), (2, vec![0, 0, 0]), (0, vec![2, 2, 1])] {
-                    exhaustive_cfgs.push(Config { lock, store_yields: sy, uv_yields: uvs, cers: cers.clone(), counter: 5 });
+                    exhaustive_cfgs.push(Config { lock, store_yields: sy, uv_yields: uvs, cers: cers.clone(), counter: 5, disc: 0 });
                 }
             }
         }
